@@ -73,7 +73,7 @@ class G:
                     % (self.k, cls, ' text:label="*"' if cit == '' else '', cit, body))
         return self.text() + self.inline(depth + 1)
     def para(self):
-        return '<text:p text:style-name="%s">%s</text:p>' % (self.rng.choice(['P1', 'Standard', 'P&amp;2']), ''.join(self.inline() for _ in range(self.rng.randint(1, 3))))
+        return '<text:p text:style-name="%s">%s</text:p>' % (self.rng.choice(['P1', 'Standard', 'P&amp;2'] + HEADING_STYLES[self.k % len(HEADING_STYLES):][:1]), ''.join(self.inline() for _ in range(self.rng.randint(1, 3))))
     def sublist(self, depth):
         # the schema allows paragraphs, headings and lists inside a list item - nothing else
         if depth > 2: return self.para()
@@ -82,7 +82,7 @@ class G:
     def block(self, depth=0, r=None, level=None):
         r = self.rng.random() if r is None else r
         if r < 0.4 or depth > 2: return self.para()
-        if r < 0.55: return '<text:h text:outline-level="%d">%s</text:h>' % (level or self.rng.randint(1, 10), self.inline())
+        if r < 0.55: return '<text:h text:outline-level="%d"%s>%s</text:h>' % (level or self.rng.randint(1, 10), self.rng.choice(['', ' text:style-name="%s"' % HEADING_STYLES[self.k % len(HEADING_STYLES)]]), self.inline())
         if r < 0.7:
             items = ''.join('<text:list-item>%s</text:list-item>' % (self.para() + (self.sublist(depth + 1) if self.rng.random() < 0.3 else '')) for _ in range(self.rng.randint(1, 3)))
             return '<text:list%s>%s</text:list>' % (self.rng.choice([' text:style-name="L1"', ' text:style-name="WW8Num1.1"', ' text:style-name="WW8Num1.1"', '']), items)
@@ -111,6 +111,8 @@ class G:
             return '<text:p>%s<draw:frame draw:name="%s" text:anchor-type="as-char" svg:width="5cm" svg:height="2cm"><draw:text-box>%s</draw:text-box></draw:frame>%s</text:p>' % (before, name, box, after)
         return '<text:p><draw:frame draw:name="%s" svg:width="1cm" svg:height="1cm"><draw:image xlink:href="Pictures/p1.png" xlink:type="simple"/><svg:title>%s</svg:title></draw:frame></text:p>' % (self.attr(), self.title())
 
+# style names the converters look at: 'Heading N' is a heading of level N - and 'Heading' plus anything else is a paragraph style like any other
+HEADING_STYLES = ['Heading_20_1', 'Heading_20_2', 'Heading_20_1_20_Appendix', 'Heading_20_TOC', 'Heading_20_1.1', 'Heading_20_', 'Heading']
 FORCED = [0.1, 0.5, 0.6, 0.8, 0.9, 0.945, 0.99]          # one block of every kind in turn, headings of every level in turn
 def make_doc(rng, kind='text', i=0):
     g = G(rng)
@@ -132,7 +134,8 @@ def make_doc(rng, kind='text', i=0):
              '<text:list-style style:name="WW8Num1.1"><text:list-level-style-number text:level="1" style:num-format="1"/><text:list-level-style-number text:level="2" style:num-format="a"/></text:list-style>') % (P.xml_attr(fam[0]), P.xml_attr(fam[1]))
     if kind == 'text':
         data = P.simple_package(body, autostyles=autos, meta=meta, extra_members=[('Pictures/p1.png', b'\x89PNG', 'image/png')],
-                                styles='<style:default-style style:family="paragraph"/><style:style style:name="Standard" style:family="paragraph"/>')
+                                styles='<style:default-style style:family="paragraph"/><style:style style:name="Standard" style:family="paragraph"/>'
+                                       + ''.join('<style:style style:name="%s" style:family="paragraph" style:parent-style-name="Standard"/>' % n for n in HEADING_STYLES))
     elif kind == 'spreadsheet':
         cells = ''.join('<table:table-row><table:table-cell office:value-type="string">%s</table:table-cell></table:table-row>' % g.para() for _ in range(rng.randint(1, 4)))
         c = P.content_xml('<table:table table:name="%s">%s</table:table>' % (g.attr(), cells), autos, kind='spreadsheet')
